@@ -1,9 +1,9 @@
 #!/bin/sh
-# usage: run_seed.sh PATCH Cxx [Cyy ...]  — apply PATCH to the scratch worktree /tmp/wt-alt (at /repo HEAD) and run the checks there
+# usage: run_seed.sh PATCH Cxx [Cyy ...]  — apply PATCH to the scratch worktree ${SLOT:-/tmp/wt-alt} (at /repo HEAD) and run the checks there
 PATCH=$1; shift
-git -C /tmp/wt-alt checkout -q -- . && git -C /tmp/wt-alt clean -fdq && git -C /tmp/wt-alt checkout -q --detach $(git -C /repo rev-parse HEAD) || exit 2
-git -C /tmp/wt-alt apply "$PATCH" || { echo "patch does not apply"; exit 2; }
+git -C ${SLOT:-/tmp/wt-alt} checkout -q -- . && git -C ${SLOT:-/tmp/wt-alt} clean -fdq && git -C ${SLOT:-/tmp/wt-alt} checkout -q --detach $(git -C /repo rev-parse HEAD) || exit 2
+git -C ${SLOT:-/tmp/wt-alt} apply "$PATCH" || { echo "patch does not apply"; exit 2; }
 for p in "$@"; do
-  VERIF_REPO=/tmp/wt-alt timeout 3000 python3 /verif/tools/check.py $p 2>&1 | grep -E "VIOLATION|tier=" 
+  VERIF_REPO=${SLOT:-/tmp/wt-alt} timeout 3000 python3 /verif/tools/check.py $p 2>&1 | grep -E "VIOLATION|tier=" 
 done
-git -C /tmp/wt-alt checkout -q -- .
+git -C ${SLOT:-/tmp/wt-alt} checkout -q -- .
